@@ -868,8 +868,15 @@ func (p *prog) partBody(big bool) []byte {
 
 func (p *prog) genCreateMPU() (*op, *mup) {
 	b, bOK := p.bucket()
+	return p.genCreateMPUIn(b, bOK, nil)
+}
+
+func (p *prog) genCreateMPUIn(b string, bOK bool, avoid map[string]bool) (*op, *mup) {
 	k, _ := p.key(b, 20)
 	busy := func(k string) bool {
+		if avoid[k] {
+			return true
+		}
 		// upload ids are random: two open uploads of one key list in an order that legitimately differs between gateways
 		for _, u := range p.m.ups {
 			if u.open && u.bucket == b && u.key == k {
@@ -1162,8 +1169,43 @@ func (p *prog) genAbort(u *mup) *op {
 		req: p.upReq("DELETE", u, nil, nil, nil, "", nil), onAck: func() { u.open = false }}
 }
 
+// genUploadsPaging: several uploads open in one bucket at the same time, then truncated ListMultipartUploads pages
+// and the follow-up request a client builds from the markers of such a page.
+func (p *prog) genUploadsPaging() *op {
+	b := p.liveBucket()
+	// distinct keys: upload ids are random, two uploads of one key list in an order that legitimately differs
+	avoid := map[string]bool{}
+	first, u1 := p.genCreateMPUIn(b, true, avoid)
+	avoid[u1.key] = true
+	var q []*op
+	for i := 0; i < 2; i++ {
+		o, u := p.genCreateMPUIn(b, true, avoid)
+		avoid[u.key] = true
+		q = append(q, o)
+	}
+	list := func(class string, extra func(s *side) []string) *op {
+		return &op{kind: "list-uploads", class: class, desc: "GET /" + b + "?uploads " + class, bucket: b, dom: "ups", body: "xml",
+			req: func(s *side) *s3c.Req {
+				kv := []string{"uploads", "\x00"}
+				kv = append(kv, extra(s)...)
+				return &s3c.Req{Method: "GET", Path: s3c.BucketPath(b), Query: s3c.Q(kv...)}
+			}}
+	}
+	q = append(q, list("paging:max-uploads=1", func(*side) []string { return []string{"max-uploads", "1"} }))
+	q = append(q, list("paging:max-uploads=2", func(*side) []string { return []string{"max-uploads", "2"} }))
+	q = append(q, list("paging:markers-of-an-upload", func(s *side) []string {
+		return []string{"max-uploads", "1", "key-marker", u1.key, "upload-id-marker", s.uploadID(u1.slot)}
+	}))
+	q = append(q, list("paging:key-marker", func(*side) []string { return []string{"max-uploads", "1", "key-marker", u1.key} }))
+	p.queue = append(p.queue, q...)
+	return first
+}
+
 // genMultipart either starts a whole upload scenario (queued) or issues one multipart call.
 func (p *prog) genMultipart() *op {
+	if p.r.Intn(5) == 0 && len(p.queue) == 0 {
+		return p.genUploadsPaging()
+	}
 	u := p.openUpload()
 	if u == nil || p.r.Intn(6) == 0 {
 		o, nu := p.genCreateMPU()
